@@ -651,6 +651,18 @@ fn run_local_worker(worker: &Worker, id: usize, parker: Parker, abort_signal: Si
         }
     }));
 
+    // Tasks still held by this worker must not be dropped when the thread
+    // exits, i.e. outside the scope of `LOCAL_WORKER`: dropping a task may wake
+    // other tasks, which cannot be scheduled from a non-worker thread. They are
+    // handed over to the injector queue, which is only dropped once all tasks
+    // have been cancelled by the executor's drop handler.
+    if let Some(task) = fast_slot.take() {
+        injector.insert_task(task);
+    }
+    while let Some(task) = local_queue.pop() {
+        injector.insert_task(task);
+    }
+
     // Report the panic, if any.
     if let Err(payload) = result {
         let model_id = CURRENT_MODEL_ID.take();
